@@ -13,7 +13,7 @@ R-C11-5  COUNT == MAXIMUM - MINIMUM + 1 == number of enum variants; discriminant
 """
 from bpsa.facts import callee_decl, callee_name
 from bpsa.normal import canon
-from bpsa.terms import walk, short, TERM_IDX, mk_elem
+from bpsa.terms import walk, short, TERM_IDX, mk_elem, T
 
 LEVEL_TEXT = ('Static analysis (value terms and evaluated constants over MIR). Decides that every generator family is derived by the documented, '
               'domain-separated hash-to-group construction with the right labels, indices and primitives, that the precomputed table represents the '
@@ -616,6 +616,19 @@ def r4(ctx):
                         other = els[1 - slot_k[0]]
                         same_index = whole and any(x is other or x is strip(other) for x in walk(val))
             ok2 = det2.startswith('compress(each(get_or_init(') and same_index and any(callee_name(t2) == mb_owner.path for _, t2 in ctx.calls(cb))
+        elif not st2:
+            # no store at all: the array is built by `core::array::from_fn(|i| points[i].compress())` -- slot i is what the closure
+            # returns for i, so the closure applied to a symbolic index must be compress(uncompressed[that index])
+            rt = strip(ctx.eng.return_term(cb))
+            if rt.tag == 'call' and rt[1].endswith('array::from_fn') and len(rt[2]) == 1 and strip(rt[2][0]).tag == 'closure':
+                k = T('index', T('const', 'from_fn'))
+                val = strip(ctx.eng.apply(strip(rt[2][0]), (k,)))
+                det2 = canon(val)
+                same_index = False
+                if val.tag == 'call' and val[1].split('::')[-1] == 'compress' and len(val[2]) == 1:
+                    src = strip(val[2][0])
+                    same_index = src.tag == 'elemat' and strip(src[2]) is k and canon(strip(src[1])).startswith('get_or_init(')
+                ok2 = same_index and any(callee_name(t2) == mb_owner.path for _, t2 in ctx.calls(cb))
         rep.check(ok2, 'R-C11-4', 'R-C11-4/compressed-generators', 'compressed[i] = compress(generator[i]) for the same enumerate index over the uncompressed array',
                   'compressed generators are %s' % det2, ctx.where(cb))
     if hf is not None:
